@@ -230,7 +230,7 @@ func (r *Run) Finish() {
 		res.Violations = []Violation{}
 	}
 	for _, g := range r.groups {
-		gi := groupInfo{Cases: len(g.terms)}
+		gi := groupInfo{Cases: len(g.terms), Shards: []string{}}
 		res.Evaluations += len(g.terms)
 		res.Distinct += len(g.keys)
 		res.DistinctNontriv += len(g.nontriv)
